@@ -976,3 +976,4 @@ LEVEL_NOTE = ("the tie compares, for every monitored function, every cell (paren
               "tree and of the returned tree after the call and after a random follow-up history with the Model-A store; the model-free "
               "oracle re-checks signature-before == signature-after, object-identity disjointness and non-visibility of later mutations")
 TECHNIQUE = "Lean 4 proof (frame/separation theorems on a pointer-store model with deep copy) + runtime monitor tied to the model by differential testing"
+RULE = RULE + ' Fourth session: DAGs with several roots and zig-zag shapes, a second copy of a DAG after the first was edited, the nodes handed out by yield_tree must be fresh, chains of 105-150 levels for the copying functions with later growth below former leaves, tree_to_dot with attribute-named styles plus graph-wide defaults.'
